@@ -30,8 +30,12 @@ partial def encKvs (kvs : List (Bytes × Obj)) : String :=
   String.join (kvs.map fun (k, v) => " " ++ hexOfBytes k ++ " " ++ encObj v)
 end
 
+/-- a case whose objects are defined under full identifiers (number, generation) -/
+def encCaseG (tag : String) (root : Nat) (objs : List ((Nat × Nat) × Obj)) : String :=
+  s!"{tag} {root} {objs.length}" ++ String.join (objs.map fun ((n, g), o) => s!" {n} {g} " ++ encObj o)
+
 def encCase (tag : String) (root : Nat) (objs : List (Nat × Obj)) : String :=
-  s!"{tag} {root} {objs.length}" ++ String.join (objs.map fun (n, o) => s!" {n} 0 " ++ encObj o)
+  encCaseG tag root (objs.map fun (n, o) => ((n, 0), o))
 
 mutual
 partial def decObj : List String → Option (Obj × List String)
@@ -727,7 +731,7 @@ def kindMutG (s : GS) : G (String × List (Nat × Obj)) := do
     | _ => addKid s.objs node v
   return ("any", objs ++ [(sid, st)] ++ x ++ kv.objs)
 
-def genOne (seed : Nat) (kind : Nat) : String :=
+def genDoc (seed : Nat) (kind : Nat) : String × List (Nat × Obj) :=
   let wild := kind == 2
   let go : G (String × List (Nat × Obj)) := do
     let depth ← rnd 3
@@ -745,12 +749,15 @@ def genOne (seed : Nat) (kind : Nat) : String :=
       let again ← rnd 3
       if again == 0 then do let o2 ← shareMut { s with objs := o }; return ("any", o2)
       return ("any", o)
-  let ((tag, objs), _) := go.run { rng := Rng.mk' seed }
+  (go.run { rng := Rng.mk' seed }).1
+
+def genOne (seed : Nat) (kind : Nat) : String :=
+  let (tag, objs) := genDoc seed kind
   encCase tag 1 objs
 
 /-- exhaustive small family: root 2 and node 3 with every kids list of length <= 2 over {2,3,4,5},
     object 4 a page or a node, object 5 a page; resources on root/3/5 in 4 placements -/
-def smallCases (stride : Nat) : List String := Id.run do
+def smallDocs (stride : Nat) : List (List (Nat × Obj)) := Id.run do
   let ids := [2, 3, 4, 5]
   let lists : List (List Nat) := [[]] ++ ids.map (fun a => [a]) ++ (ids.flatMap fun a => ids.map fun b => [a, b])
   let st : Obj := .stream [] ⟨0, 2, [113, 32]⟩
@@ -762,7 +769,7 @@ def smallCases (stride : Nat) : List String := Id.run do
     | 1 => ([("Resources", rd)], [])
     | 2 => ([("Resources", .ref slot 0)], [(slot, rd)])
     | _ => ([("Resources", .ref slot 0)], [(slot, .ref (slot + 1) 0), (slot + 1, rd)])
-  let mut out : List String := []
+  let mut out : List (List (Nat × Obj)) := []
   let mut i := 0
   for k2 in lists do
     for k3 in lists do
@@ -785,9 +792,218 @@ def smallCases (stride : Nat) : List String := Id.run do
               (4, o4),
               (5, mkDict ([("Type", nm "Page"), ("Parent", .ref 4 0), ("Contents", .arr [.ref 9 0, .ref 9 0])] ++ r5)),
               (9, st)] ++ x2 ++ x3 ++ x5
-            out := encCase "any" 1 objs :: out
+            out := objs :: out
   return out.reverse
 
+def smallCases (stride : Nat) : List String := (smallDocs stride).map (encCase "any" 1)
+
+
+/-! ### object identifiers with NON-ZERO GENERATIONS
+
+  An object identifier is the pair (number, generation): `PDFObjContext` keys definitions by the
+  pair, so `3 0 obj` and `3 1 obj` are two unrelated objects, `3 1 R` denotes the second one only, and
+  `3 2 R` denotes nothing when only those two are defined.  Everything `to_page_dom` remembers about
+  identifiers - the `examined` set of the conversion queue, the `followed` set of `resolve_chain`, the
+  keys of `pages`, `font_dicts`, `font_descrs`, parents and kids lists - must therefore use the PAIR.
+  A converter that keeps only the object number merges distinct objects: of two kids `3 0 R 3 1 R` only
+  the first is converted (the other one and its subtree are silently absent), a chain whose links share
+  a number looks like a loop, a descriptor cache hands out the wrong descriptor.
+
+  The family is built by RENAMING: a document over object numbers (generation 0, as all the other
+  families produce them) is mapped through an injective `ren : number -> (number, generation)`
+  applied to the definitions and to every reference inside every value (undefined targets
+  included), so the renamed document is isomorphic to the original one and its expected DOM is the
+  renamed DOM - while the numbers collide as the scheme says.  The catalog stays `1 0 obj` (the case
+  format names it by number); every scheme gives generation >= 1 to all other objects or keeps
+  their numbers apart from 1, so it collides with nothing unless the scheme wants it to.
+  The oracle needs nothing new: Spec/PageTree keys `seen`, `defOf` and the records by the pair. -/
+
+abbrev IdDoc := List (ObjId × Obj)
+
+partial def renObj (ren : Nat → ObjId) : Obj → Obj
+  | .ref n _ => .ref (ren n).1 (ren n).2
+  | .arr xs => .arr (xs.map (renObj ren))
+  | .dict kvs => .dict (kvs.map fun kv => (kv.1, renObj ren kv.2))
+  | .stream kvs sc => .stream (kvs.map fun kv => (kv.1, renObj ren kv.2)) sc
+  | o => o
+
+/-- rename definitions and references; object 1 (the catalog) stays `1 0` -/
+def renDoc (ren : Nat → ObjId) (objs : List (Nat × Obj)) : IdDoc :=
+  let r : Nat → ObjId := fun n => if n == 1 then (1, 0) else ren n
+  objs.map fun (n, o) => (r n, renObj r o)
+
+/-- renaming schemes, all injective on the numbers >= 2 and never producing `1 0`:
+    gens/maxgen: numbers stay distinct, every generation non-zero (maxgen: 65535, the largest legal one);
+    onenum: EVERY object (root, nodes, pages, streams, resources, fonts, descriptors, chain links,
+      undefined targets) shares number 1 with the catalog and differs in generation only;
+    onenum-desc: all share number 7, generations 65535-n: map order is the reverse of the definition order;
+    pairs-a/b, mod2, mod3: neighbouring numbers / residue classes share a number (root+page, page+node,
+      node+page, page+stream, root+page+descriptor ... depending on the document);
+    links: only the objects of the family under test (numbers >= 50: chain links, wrong-kind containers,
+      undefined targets) share number 50;  onpage: the same objects share the number of page `3 0`. -/
+def schemes : List (String × (Nat → ObjId)) :=
+  [ ("gens", fun n => (n, n)),
+    ("maxgen", fun n => (n, 65535)),
+    ("onenum", fun n => (1, n)),
+    ("onenum-desc", fun n => (7, 65535 - n)),
+    ("pairs-a", fun n => (n / 2 + 1, n % 2 + 1)),
+    ("pairs-b", fun n => ((n + 1) / 2 + 1, (n + 1) % 2 + 1)),
+    ("mod2", fun n => (n % 2 + 2, n / 2 + 1)),
+    ("mod3", fun n => (n % 3 + 2, n / 3 + 1)),
+    ("links", fun n => if n < 50 then (n, 0) else (50, n - 50)),
+    ("onpage", fun n => if n < 50 then (n, 0) else (3, n - 49)) ]
+
+/-- the schemes under which objects of the page tree proper collide -/
+def collideSchemes : List (String × (Nat → ObjId)) :=
+  schemes.filter fun s => ["onenum", "onenum-desc", "pairs-a", "pairs-b", "mod2", "mod3"].contains s.1
+
+def schemeAt (l : List (String × (Nat → ObjId))) (i : Nat) : String × (Nat → ObjId) :=
+  l[i % l.length]?.getD ("gens", fun n => (n, n))
+
+/-- every reference-chain shape at every position (the 277 graphs of the chain family), under every
+    scheme; the type checker's verdict does not depend on the names of the objects -/
+def genShapeCases : List (String × String) :=
+  schemes.flatMap fun (sn, ren) =>
+    (List.range posNames.length).flatMap fun pos =>
+      (allShapes.filter fun sh => !(streamPos pos && (match sh with | .direct => true | _ => false))).map fun sh =>
+        (s!"gen-{sn}-{posNames[pos]?.getD "?"}-{sh.name}",
+         encCaseG (if shapeTC pos sh then "tc" else "any") 1 (renDoc ren (shapeDoc pos sh)))
+
+/-- the small family (every kids list of length <= 2 over {root, node, 4, 5}: shared kids, cycles, the
+    root as a kid) under the colliding schemes: `per` schemes per graph, rotating -/
+def genSmallCases (stride per : Nat) : List String :=
+  ((smallDocs stride).zipIdx).flatMap fun (doc, i) =>
+    (List.range per).map fun j => encCaseG "any" 1 (renDoc (schemeAt collideSchemes (i + j)).2 doc)
+
+/-- wrong-kind values (every `stride`-th graph of the family) under `per` colliding-or-links schemes -/
+def genKindCases (stride per : Nat) : List String :=
+  let ss := collideSchemes ++ schemes.filter fun s => s.1 == "links" || s.1 == "onpage"
+  let docs := (List.range posNames.length).flatMap fun pos =>
+    (List.range kindNames.length).flatMap fun i => [0, 1, 2, 3].map fun k => kindDoc pos i k
+  (docs.zipIdx.filter fun (_, i) => i % stride == 0).flatMap fun (doc, i) =>
+    (List.range per).map fun j => encCaseG "any" 1 (renDoc (schemeAt ss (i / stride + j)).2 doc)
+
+/-- long chains / tails / dangling chains whose links ALL share one object number (links: number 50;
+    onenum: number 1, with everything else) -/
+def genLongCases (full : Bool) : List String :=
+  let ss := schemes.filter fun s => s.1 == "links" || s.1 == "onenum"
+  let docs : List (String × List (Nat × Obj)) := (List.range posNames.length).flatMap fun pos =>
+    (longShapes full).filterMap fun sh =>
+      let sh := match sh with | .chain 0 => Shape.direct | .lasso 0 c => .cycle c | s => s
+      if streamPos pos && (match sh with | .direct => true | _ => false) then none else
+      some (if shapeTC pos sh then "tc" else "any", shapeDoc pos sh)
+  if full then docs.flatMap fun (tag, doc) => ss.map fun (_, ren) => encCaseG tag 1 (renDoc ren doc)
+  else (docs.zipIdx.filter fun (_, i) => i % 5 == 0).map fun ((tag, doc), i) =>
+    encCaseG tag 1 (renDoc (schemeAt ss (i / 5)).2 doc)
+
+/-- a reference whose GENERATION is wrong or must be told apart from a sibling, at each position;
+    object numbers 50/51/52 stand for generations 0/1/2 of ONE object number (scheme below).
+    `resolves`: the value denotes the position's well-formed value `t` -/
+structure GenVariant where
+  name : String
+  resolves : Bool
+  dangles : Bool
+  place : Obj → Obj × List (Nat × Obj)
+
+def genVariants : List GenVariant :=
+  [ ⟨"undef-above", false, true, fun t => (.ref 51 0, [(50, t)])⟩,          -- n 1 R, only n 0 obj defined
+    ⟨"undef-below", false, true, fun t => (.ref 50 0, [(51, t)])⟩,          -- n 0 R, only n 1 obj defined
+    ⟨"decoy-first", true, false, fun t => (.ref 51 0, [(50, .int 7), (51, t)])⟩,
+    ⟨"decoy-last", true, false, fun t => (.ref 51 0, [(51, t), (50, .int 7)])⟩,
+    ⟨"decoy-picked", false, false, fun t => (.ref 51 0, [(50, t), (51, .int 7)])⟩,
+    ⟨"twin-high", true, false, fun t => (.ref 52 0, [(50, t), (52, t)])⟩,   -- provenance must be n 2
+    ⟨"twin-low", true, false, fun t => (.ref 50 0, [(50, t), (52, t)])⟩,
+    ⟨"chain-in-number", true, false, fun t => (.ref 52 0, [(52, .ref 51 0), (51, .ref 50 0), (50, t)])⟩,
+    ⟨"chain-to-undef-gen", false, true, fun _ => (.ref 50 0, [(50, .ref 51 0)])⟩ ]
+
+/-- where the generations of the wrong-generation family live: a number of their own; the number of
+    page `3 0`; a number of their own while every other object has generation 2 -/
+def genVariantSchemes : List (String × (Nat → ObjId)) :=
+  [ ("own", fun n => if n < 50 then (n, 0) else (50, n - 50)),
+    ("onpage", fun n => if n < 50 then (n, 0) else (3, n - 49)),
+    ("allgen2", fun n => if n < 50 then (n, 2) else (50, n - 47)) ]
+
+def genVariantCases : List (String × String) :=
+  genVariantSchemes.flatMap fun (sn, ren) =>
+    (List.range posNames.length).flatMap fun pos =>
+      genVariants.map fun v =>
+        let tag := if v.resolves then "tc" else if v.dangles && shapeTC pos (.dangling 0) then "tc" else "any"
+        (s!"gen-{sn}-{posNames[pos]?.getD "?"}-{v.name}", encCaseG tag 1 (renDoc ren (posDoc pos v.place)))
+
+/-- hand-built minimal instances (corpus/C11/generations.case): a root `2 0` (or as said) over
+    pages / nodes whose identifiers differ in the generation only -/
+def genMiniCases : List (String × String) :=
+  let st : Obj := .stream [] ⟨0, 2, [113, 32]⟩
+  let r (n g : Nat) : Obj := .ref n g
+  let cat (n g : Nat) : ObjId × Obj := ((1, 0), mkDict [("Type", nm "Catalog"), ("Pages", r n g)])
+  let page (p : Obj) (c : Obj) : Obj := mkDict [("Type", nm "Page"), ("Parent", p), ("Contents", c)]
+  let pageR (p : Obj) (c res : Obj) : Obj := mkDict [("Type", nm "Page"), ("Parent", p), ("Contents", c), ("Resources", res)]
+  let node (p : Option Obj) (cnt : Int) (kids : List Obj) : Obj :=
+    mkDict ([("Type", nm "Pages"), ("Count", .int cnt), ("Kids", .arr kids)] ++ (match p with | some p => [("Parent", p)] | none => []))
+  let font (bf : String) (extra : List (String × Obj)) : Obj :=
+    mkDict ([("Type", nm "Font"), ("Subtype", nm "TrueType"), ("BaseFont", nm bf)] ++ extra)
+  let descr (fl : Int) (extra : List (String × Obj)) : Obj :=
+    mkDict ([("Type", nm "FontDescriptor"), ("FontName", nm "ABCDEF+Foo"), ("Flags", .int fl)] ++ extra)
+  let s9 : ObjId × Obj := ((9, 0), st)
+  [ ("two-pages-one-number", "tc", [cat 2 0, ((2, 0), node none 2 [r 3 0, r 3 1]), ((3, 0), page (r 2 0) (r 9 0)), ((3, 1), page (r 2 0) (r 9 0)), s9]),
+    ("three-pages-one-number-desc", "tc", [cat 2 0, ((2, 0), node none 3 [r 3 7, r 3 2, r 3 65535]), ((3, 7), page (r 2 0) (r 9 0)),
+        ((3, 2), page (r 2 0) (r 9 0)), ((3, 65535), page (r 2 0) (r 9 0)), s9]),
+    ("page-then-node-one-number", "tc", [cat 2 0, ((2, 0), node none 2 [r 3 0, r 3 1]), ((3, 0), page (r 2 0) (r 9 0)),
+        ((3, 1), node (some (r 2 0)) 1 [r 3 2]), ((3, 2), page (r 3 1) (r 9 0)), s9]),
+    ("node-then-page-one-number", "tc", [cat 2 0, ((2, 0), node none 2 [r 3 1, r 3 0]), ((3, 0), page (r 2 0) (r 9 0)),
+        ((3, 1), node (some (r 2 0)) 1 [r 4 0]), ((4, 0), page (r 3 1) (r 9 0)), s9]),
+    ("two-nodes-one-number", "tc", [cat 2 0, ((2, 0), node none 2 [r 3 0, r 3 1]), ((3, 0), node (some (r 2 0)) 1 [r 4 0]),
+        ((3, 1), node (some (r 2 0)) 1 [r 4 1]), ((4, 0), page (r 3 0) (r 9 0)), ((4, 1), page (r 3 1) (r 9 0)), s9]),
+    ("root-shares-number-with-kids", "tc", [cat 3 0, ((3, 0), node none 2 [r 3 1, r 3 2]), ((3, 1), page (r 3 0) (r 9 0)),
+        ((3, 2), node (some (r 3 0)) 1 [r 3 3]), ((3, 3), page (r 3 2) (r 9 0)), s9]),
+    ("everything-number-1", "tc", [cat 1 1, ((1, 1), node none 1 [r 1 2]), ((1, 2), page (r 1 1) (r 1 3)), ((1, 3), st)]),
+    ("root-generation-5", "tc", [cat 2 5, ((2, 5), node none 1 [r 3 4]), ((3, 4), page (r 2 5) (r 9 3)), ((9, 3), st)]),
+    ("kid-undefined-generation-after", "any", [cat 2 0, ((2, 0), node none 1 [r 3 0, r 3 1]), ((3, 0), page (r 2 0) (r 9 0)), s9]),
+    ("kid-undefined-generation-before", "any", [cat 2 0, ((2, 0), node none 1 [r 3 1, r 3 0]), ((3, 0), page (r 2 0) (r 9 0)), s9]),
+    ("kid-undefined-generation-between", "any", [cat 2 0, ((2, 0), node none 2 [r 3 0, r 3 1, r 3 2]), ((3, 0), page (r 2 0) (r 9 0)),
+        ((3, 2), page (r 2 0) (r 9 0)), s9]),
+    ("pages-root-wrong-generation", "any", [cat 2 1, ((2, 0), node none 0 [])]),
+    ("same-kid-twice-and-sibling-generation", "any", [cat 2 0, ((2, 0), node none 2 [r 3 1, r 3 0, r 3 1, r 3 0]),
+        ((3, 0), page (r 2 0) (r 9 0)), ((3, 1), page (r 2 0) (r 9 0)), s9]),
+    ("cycle-through-generations", "any", [cat 2 0, ((2, 0), node none 1 [r 3 0]), ((3, 0), node (some (r 2 0)) 1 [r 3 1]),
+        ((3, 1), node (some (r 3 0)) 1 [r 3 0, r 3 2, r 3 1]), ((3, 2), page (r 3 1) (r 9 0)), s9]),
+    ("contents-shares-page-number", "tc", [cat 2 0, ((2, 0), node none 1 [r 3 0]), ((3, 0), page (r 2 0) (r 3 1)), ((3, 1), st)]),
+    ("contents-array-generations", "tc", [cat 2 0, ((2, 0), node none 1 [r 3 0]), ((3, 0), page (r 2 0) (.arr [r 3 2, r 3 1, r 3 2])),
+        ((3, 1), st), ((3, 2), st)]),
+    ("contents-undefined-generation", "any", [cat 2 0, ((2, 0), node none 1 [r 3 0]), ((3, 0), page (r 2 0) (r 9 1)), s9]),
+    ("contents-chain-in-one-number", "tc", [cat 2 0, ((2, 0), node none 1 [r 3 0]), ((3, 0), page (r 2 0) (r 3 3)),
+        ((3, 3), r 3 2), ((3, 2), r 3 1), ((3, 1), st)]),
+    ("resources-share-page-number", "tc", [cat 2 0, ((2, 0), node none 1 [r 3 0]),
+        ((3, 0), pageR (r 2 0) (r 9 0) (r 3 1)), ((3, 1), mkDict [("Font", r 3 2)]), ((3, 2), mkDict [("F1", r 3 3)]),
+        ((3, 3), font "ABCDEF+Foo" [("FontDescriptor", r 3 4)]), ((3, 4), descr 32 [("FontFile2", r 3 5)]), ((3, 5), st), s9]),
+    ("resources-undefined-generation-inherits", "any", [cat 2 0,
+        ((2, 0), mkDict [("Type", nm "Pages"), ("Count", .int 1), ("Kids", .arr [r 3 0]), ("Resources", mkDict [("Font", mkDict [("F1", font "Helvetica" [])])])]),
+        ((3, 0), pageR (r 2 0) (r 9 0) (r 3 1)), ((3, 2), mkDict [("Font", mkDict [("F2", font "Courier" [])])]), s9]),
+    ("two-fonts-one-number", "tc", [cat 2 0, ((2, 0), node none 1 [r 3 0]),
+        ((3, 0), pageR (r 2 0) (r 9 0) (mkDict [("Font", mkDict [("F1", r 5 0), ("F2", r 5 1), ("F3", r 5 0)])])),
+        ((5, 0), font "Helvetica" []), ((5, 1), font "ABCDEF+Foo" [("Encoding", nm "WinAnsiEncoding")]), s9]),
+    ("two-descriptors-one-number", "tc", [cat 2 0, ((2, 0), node none 1 [r 3 0]),
+        ((3, 0), pageR (r 2 0) (r 9 0) (mkDict [("Font", mkDict [("F1", r 5 0), ("F2", r 5 1)])])),
+        ((5, 0), font "ABCDEF+Foo" [("FontDescriptor", r 6 0)]), ((5, 1), font "ABCDEF+Bar" [("FontDescriptor", r 6 1)]),
+        ((6, 0), descr 4 []), ((6, 1), descr 32 [("FontFile2", r 9 0)]), s9]),
+    ("font-undefined-generation", "any", [cat 2 0, ((2, 0), node none 1 [r 3 0]),
+        ((3, 0), pageR (r 2 0) (r 9 0) (mkDict [("Font", mkDict [("F1", r 5 1)])])), ((5, 0), font "Helvetica" []), s9]),
+    ("descriptor-undefined-generation", "any", [cat 2 0, ((2, 0), node none 1 [r 3 0]),
+        ((3, 0), pageR (r 2 0) (r 9 0) (mkDict [("Font", mkDict [("F1", r 5 0)])])),
+        ((5, 0), font "ABCDEF+Foo" [("FontDescriptor", r 6 1)]), ((6, 0), descr 4 []), s9]) ].map
+    fun (n, tag, doc) => ("mini-" ++ n, encCaseG tag 1 doc)
+
+/-- a random tree of any of the five kinds under a random renaming `n -> (n mod m + a, n div m + b)`
+    (m = 1..4 object numbers in all) or `n -> (n div m + a, n mod m + b)` (m generations per number) -/
+def genOneG (seed kind : Nat) : String :=
+  let (tag, objs) := genDoc seed kind
+  let (m, r) := (Rng.mk' (seed * 31 + 7)).nat 4
+  let m := m + 1
+  let (a, r) := r.nat 3
+  let (b, r) := r.pick [1, 1, 2, 7, 65000]
+  let (sw, _) := r.nat 4
+  let ren : Nat → ObjId := fun n => if sw == 0 then (n / m + a + 1, n % m + b) else (n % m + a + 1, n / m + b)
+  encCaseG tag 1 (renDoc ren objs)
 
 def gen (seed n : Nat) (tier : String) (emit : String → IO Unit) : IO Unit := do
   for c in smallCases (if tier == "thorough" then 1 else 7) do emit c
@@ -799,6 +1015,16 @@ def gen (seed n : Nat) (tier : String) (emit : String → IO Unit) : IO Unit := 
   -- wrong-kind values at random positions of random trees: n/5 further cases (own seeds)
   for i in List.range (n / 5) do
     emit (genOne (seed * 1000003 + n + i) 4)
+  -- identifiers with non-zero generations (all earlier cases have generation 0 throughout)
+  let full := tier == "thorough"
+  for (_, c) in genMiniCases do emit c
+  for (_, c) in genVariantCases do emit c
+  for (_, c) in genShapeCases do emit c
+  for c in genSmallCases (if full then 1 else 7) (if full then 3 else 1) do emit c
+  for c in genKindCases (if full then 1 else 7) (if full then 2 else 1) do emit c
+  for c in genLongCases full do emit c
+  for i in List.range (n / 5) do
+    emit (genOneG (seed * 1000003 + 2 * n + i) (if i % 10 < 3 then 0 else if i % 10 < 5 then 1 else if i % 10 < 7 then 2 else if i % 10 < 9 then 3 else 4))
 
 mutual
 /-- does some array inside the value list an array, directly or as a reference to a defined array
@@ -815,9 +1041,23 @@ partial def arrInArr (defs : Defs) : Obj → Bool
   | _ => false
 end
 
+partial def refsIn : Obj → List ObjId
+  | .ref a g => [(a, g)]
+  | .arr xs => xs.flatMap refsIn
+  | .dict kvs => kvs.flatMap fun kv => refsIn kv.2
+  | .stream kvs _ => kvs.flatMap fun kv => refsIn kv.2
+  | _ => []
+
+/-- two identifiers of the graph (defined or referenced) share the object number and differ in the
+    generation -/
+def sharesNumber (defs : Defs) : Bool :=
+  let ids := defs.flatMap fun (id, o) => id :: refsIn o
+  ids.any fun a => ids.any fun b => a.1 == b.1 && a.2 != b.2
+
 /-- non-trivial: the expected DOM has >= 3 records including an inner node, or the graph contains
     a top-level reference object (a link of a reference chain or a loop), or an array that lists an
-    array (directly or through a reference to an array object) -/
+    array (directly or through a reference to an array object), or two identifiers that differ in the
+    generation only -/
 def nontrivial (line : String) : Bool :=
   match decCase line with
   | none => false
@@ -829,7 +1069,7 @@ def nontrivial (line : String) : Bool :=
         match PageTreeSpec.specDom c.defs cat with
         | none => false
         | some d => d.recs.length ≥ 3 && d.recs.any fun | .node .. => true | _ => false
-    hasLink || big || c.defs.any fun (_, o) => arrInArr c.defs o
+    hasLink || big || (c.defs.any fun (_, o) => arrInArr c.defs o) || sharesNumber c.defs
 
 def driver : PropDriver := { gen, model, judge, nontrivial }
 end Driver.C11
